@@ -38,6 +38,7 @@ def gen_knobs(r):
             "clock": 1_500_000_000 + r.getrandbits(28), "pid": r.randint(2, 60000),
             "host": r.choice(["rtr-lab-1", "build42", "localhost", "anon-box"]), "sched_key": "%08x" % r.getrandbits(32), "cli_style": r.choice([0, 0, 1, 2, 3, 4, 5, 7]),
             "log_level": r.choice([None, None, None, "DEBUG", "DEBUG", "WARNING"]),
+            "tmp_same_fs": r.choice([False, False, True]),
             "cwd": r.choice(["/home/alice/configs", "/srv/netconan/work", "/", "/tmp/x y"]),
             "environ": {"TZ": r.choice(["UTC", "Asia/Tokyo", "America/Lima"]), "LANG": r.choice(["C", "en_US.UTF-8", "de_DE.UTF-8"]),
                         "USER": r.choice(["root", "alice", "svc-netconan"]), "COLUMNS": str(r.choice([80, 132, 200]))},
@@ -103,9 +104,26 @@ def boundary_line(r, ctx, boundary=None, words=False):
     return {"segs": segs, "eol": "\n"}
 
 
+DIRECTED_IMAGES6 = [int(ipaddress.IPv6Address(x)) for x in (
+    "fc00::1", "fd12:3456:789a::1", "fdff:ffff:ffff:ffff:ffff:ffff:ffff:fffe", "fe80::1", "fe80::a:b", "ff02::1", "ff05::1:3", "::1", "::",
+    "::ffff:c000:201", "::ffff:10.1.2.3", "2001:db8::1", "fec0::1", "64:ff9b::c000:201", "2002:c000:201::1",
+    "ffff:ffff:ffff:ffff:ffff:ffff:ffff:ffff", "100::1", "2001::1")]
+
+
 def directed_line(r):
     """A line whose address is chosen so that its IMAGE is a special value (netmask-shaped, multicast control
-    block, loopback, ...): the original is derived at execution time by a cold twin (resolve_directed)."""
+    block, loopback, unique-local, link-local, IPv4-mapped ...): the original is derived at execution time by a cold twin
+    (resolve_directed)."""
+    if r.random() < 0.35:
+        pat = r.choice([["lit:ipv6 route ", "X", "lit:/64 ", "X"], ["lit: neighbor ", "X", "lit: remote-as 65001"],
+                        ["lit:ntp server ", "X", "lit:;"], ["lit:set interfaces lo0 unit 0 family inet6 address ", "X", "lit:/128"]])
+        segs = []
+        for p in pat:
+            if p.startswith("lit:"):
+                segs.append(["lit", p[4:]])
+            else:
+                segs.append(["a6", "", {"img": r.choice(DIRECTED_IMAGES6), "fam": 6}])
+        return {"segs": segs, "eol": "\n"}
     img = r.choice(DIRECTED_IMAGES)
     pat = r.choice([["lit:ip route ", "X", "lit: ", "k:255.255.255.0", "lit: ", "X2"], ["lit: neighbor ", "X", "lit: remote-as 65001"],
                     ["lit:ntp server ", "X", "lit:;"], ["lit: ip ospf neighbor ", "X"]])
@@ -138,13 +156,24 @@ def resolve_directed(files, opts, knobs):
     with p:
         try:
             fa = p.af.FileAnonymizer(**W.fa_kwargs(dict(opts, ip=True, undo=False)))
-            an = fa.anonymizer4
+            an, an6 = fa.anonymizer4, fa.anonymizer6
         except Exception:
-            an = None
+            an = an6 = None
         for f in files:
             for ln in f["lines"]:
                 for s in ln["segs"]:
-                    if len(s) > 2 and isinstance(s[2], dict) and "img" in s[2] and "v" not in s[2]:
+                    if len(s) > 2 and isinstance(s[2], dict) and "img" in s[2] and "v" not in s[2] and s[2].get("fam") == 6:
+                        try:
+                            v = an6.deanonymize(s[2]["img"])
+                        except Exception:
+                            v = None
+                        if v is None:
+                            s[0], s[1] = "lit", "unresolved"
+                            s[2:] = []
+                        else:
+                            s[1] = str(_ip.IPv6Address(v))
+                            s[2]["v"] = v
+                    elif len(s) > 2 and isinstance(s[2], dict) and "img" in s[2] and "v" not in s[2]:
                         try:
                             v = an.deanonymize(s[2]["img"])
                         except Exception:
@@ -159,6 +188,25 @@ def resolve_directed(files, opts, knobs):
                             s[1] = str(_ip.IPv4Address(v))
                             s[2]["v"] = v
     return files
+
+
+def stale_map(files, key, torn=0):
+    """A well-formed map file as an earlier run under ANOTHER salt would have left it: this tree's own addresses,
+    each with some other image.  `torn` characters are cut off its end (interrupted earlier run)."""
+    out = []
+    seen = set()
+    for f in files:
+        for ln in f["lines"]:
+            for sg in ln["segs"]:
+                if sg[0] in ("a4", "a6") and len(sg) > 2 and isinstance(sg[2], dict) and "v" in sg[2] and (sg[0], sg[2]["v"]) not in seen:
+                    seen.add((sg[0], sg[2]["v"]))
+                    v = sg[2]["v"]
+                    if sg[0] == "a4":
+                        out.append("%s\t%s" % (ipaddress.IPv4Address(v), ipaddress.IPv4Address((v * 2654435761 + key) & 0xFFFFFFFF)))
+                    else:
+                        out.append("%s\t%s" % (ipaddress.IPv6Address(v), ipaddress.IPv6Address((v * 0x9E3779B97F4A7C15 + key) % (1 << 128))))
+    text = "".join(x + "\n" for x in out[:200])
+    return text[: len(text) - torn] if torn else text
 
 
 RESERVED_BASES = ["router", "system", "permit", "interface", "neighbor", "trunk", "snmp"]
